@@ -81,3 +81,56 @@ def name_bound(ctx, modules=None):
     ctx.ob('NAME-BOUND', True, None, '%d functions: every implicit global is bound' % n_fn,
            key='scanned')
     ctx.floor('NAME-BOUND', n_fn, 1, 'functions')
+
+
+def arg_order(ctx, modules=None):
+    """ARG-ORDER - a local passed positionally under the name of ANOTHER parameter of the callee.
+
+    When a call to a function of the package passes plain names (or attributes) positionally and
+    two or more of them coincide with parameter names of the callee, the author named them after
+    those parameters; one of them sitting at the position of a different parameter
+    (`principal_radii(alt, lat)`, `kalman.correct(P, x, …)`) contradicts that stated belief.  On the
+    pinned tree 25 calls have two or more name-matching arguments and none is misplaced."""
+    from ..model import FunctionInfo, ClassInfo
+    ctx.rule('ARG-ORDER', 'positional arguments that carry the name of a parameter of the callee sit '
+             'at the position of that parameter')
+    repo = ctx.repo
+    n = 0
+    for f in repo.all_functions():
+        short = f.module.name.split('.')[-1]
+        if modules and short not in modules:
+            continue
+        if '.tests' in f.module.name:
+            continue
+        for call in ast.walk(f.node):
+            if not isinstance(call, ast.Call):
+                continue
+            q = f.module.resolve(call.func, f.local_names())
+            tgt = repo.lookup(q) if q and q.startswith('pyins') else None
+            params = None
+            if isinstance(tgt, ClassInfo):
+                h = repo.class_member(tgt, '__init__')
+                params = h.params[1:] if isinstance(h, FunctionInfo) else None
+            elif isinstance(tgt, FunctionInfo):
+                params = tgt.params[1:] if (tgt.cls is not None and not tgt.is_static and
+                                            isinstance(call.func, ast.Attribute)) else tgt.params
+            if not params:
+                continue
+            names = [a.id if isinstance(a, ast.Name) else
+                     (a.attr if isinstance(a, ast.Attribute) else None) for a in call.args]
+            both = [(i, nm) for i, nm in enumerate(names) if nm in params]
+            if len(both) < 2:
+                continue
+            n += 1
+            for i, nm in both:
+                j = params.index(nm)
+                ok = i == j or i >= len(params)
+                ctx.ob('ARG-ORDER', ok, None, '%s: `%s` at the position of parameter %s'
+                       % (f.qualname, nm, nm), f=f, node=call.args[i],
+                       key='%s->%s:%s' % (f.qualname, norm_text(call.func), nm),
+                       why='%s calls `%s` with `%s` at the position of the parameter `%s`, while '
+                           'the callee has a parameter named `%s` at position %d: arguments '
+                           'exchanged' % (f.qualname, norm_text(call)[:70], nm,
+                                          params[i] if i < len(params) else '?', nm, j + 1))
+    ctx.ob('ARG-ORDER', True, None, '%d calls with two or more name-matching arguments' % n,
+           key='scanned')
